@@ -40,6 +40,7 @@ type (
 		loopIndex     int
 		tryCatchIndex int
 		iotaVal       int
+		sharedExprs   int
 		opts          *CompilerOptions
 		trace         io.Writer
 		indent        int
@@ -391,7 +392,7 @@ func (c *Compiler) Compile(node parser.Node) error {
 	case *parser.ParenExpr:
 		return c.Compile(node.Expr)
 	case *parser.BinaryExpr:
-		if hasAnyConstLit(c.symbolTable) {
+		if c.sharedExprs == 0 && hasAnyConstLit(c.symbolTable) {
 			expr := parser.Expr(node)
 			ok, err := c.optimizeExpr(&expr)
 			if err != nil {
@@ -425,7 +426,7 @@ func (c *Compiler) Compile(node parser.Node) error {
 	case *parser.UndefinedLit:
 		c.emit(node, OpNull)
 	case *parser.UnaryExpr:
-		if hasAnyConstLit(c.symbolTable) {
+		if c.sharedExprs == 0 && hasAnyConstLit(c.symbolTable) {
 			expr := parser.Expr(node)
 			ok, err := c.optimizeExpr(&expr)
 			if err != nil {
